@@ -52,12 +52,54 @@ class Acc:
                 self.samples, self.counts)
 
 
+class ShardTimeout(BaseException):
+    pass
+
+
+def shard_limit():
+    """Seconds one shard may take in a pool worker before it counts as hung
+    (typical shards take seconds; the slowest under full load about one
+    minute)."""
+    import os
+    d = 240 if common.tier() != 'thorough' else 3000
+    return int(os.environ.get('VERIF_SHARD_TIMEOUT', d))
+
+
+def guarded(fn, *a):
+    """Run fn(*a) under a SIGALRM limit when in a pool worker.  Returns
+    ('ok', result) or ('hang', formatted stack, hung_in_implementation)."""
+    import signal
+    in_worker = mp.current_process().name != 'MainProcess'
+    if not in_worker:
+        return ('ok', fn(*a))
+
+    def on_alarm(sig, frame):
+        raise ShardTimeout()
+    old = signal.signal(signal.SIGALRM, on_alarm)
+    signal.alarm(shard_limit())
+    try:
+        return ('ok', fn(*a))
+    except ShardTimeout:
+        tb = traceback.format_exc()
+        frames = [ln for ln in tb.splitlines()
+                  if ln.strip().startswith('File ') and 'in on_alarm' not in ln]
+        inner = frames[-1] if frames else ''
+        in_impl = common.REPO in inner
+        return ('hang', tb, in_impl)
+    finally:
+        signal.alarm(0)
+        signal.signal(signal.SIGALRM, old)
+
+
 def _call(args):
     worker, shard = args
     _LAST[0] = None
     try:
-        acc = worker(shard)
-        return ('ok', acc.pack())
+        r = guarded(worker, shard)
+        if r[0] == 'hang':
+            partial = _LAST[0].pack() if _LAST[0] is not None else None
+            return ('hang', (repr(shard)[:300], r[1], r[2], partial))
+        return ('ok', r[1].pack())
     except BaseException:   # a harness bug, not a property violation
         partial = _LAST[0].pack() if _LAST[0] is not None else None
         return ('err', (repr(shard)[:300], traceback.format_exc(), partial))
@@ -81,7 +123,35 @@ def run_shards(worker, shards, report, procs=None, chunksize=1):
             for r in pool.imap_unordered(_call, [(worker, sh) for sh in shards],
                                          chunksize):
                 results.append(r)
+                if r[0] == 'hang' and r[1][2]:
+                    # the implementation hangs: report it now instead of
+                    # waiting for every other shard to hit the same loop
+                    pool.terminate()
+                    break
     for status, payload in results:
+        if status == 'hang':
+            shard, tb, in_impl, partial = payload
+            if partial is not None:
+                for key, lst in partial[2].items():
+                    for _, what, case in lst:
+                        report.violation(key, what, case)
+            where = [ln.strip() for ln in tb.splitlines()
+                     if ln.strip().startswith('File ')
+                     and 'in on_alarm' not in ln][-3:]
+            if in_impl:
+                # the implementation loops or blocks: that is an execution
+                # that never completes, not a harness problem
+                report.violation(
+                    'call-never-returned',
+                    f'shard {shard}: a call into the implementation did not '
+                    f'return within {shard_limit()} s; innermost frames: '
+                    f'{where}', {'kind': 'hang', 'shard': shard})
+            else:
+                report._vacuous = True
+                print(f'HARNESS-ERROR: shard {shard} exceeded '
+                      f'{shard_limit()} s inside the harness: {where}',
+                      flush=True)
+            continue
         if status == 'err':
             shard, tb, partial = payload
             if partial is not None:
